@@ -573,6 +573,63 @@ def generated_metadata(ctx):
     return {"generated_metadata_instructions": n_ok, "generated_metadata_rejected": n_rej, "generated_metadata_hi_pkt_mention_combinations": sorted(combos)}
 
 
+META_ROUTINES = [
+    ("m_none", "int32_t", ["int32_t x"], "{ return x + 1; }"),
+    ("m_none_b", "int32_t", ["HexInsnPktBundle *bundle", "int32_t x"], "{ return x + 1; }"),
+    ("m_npc", "int32_t", ["HexInsnPktBundle *bundle", "int32_t x"], "{ return x + get_npc(pkt); }"),
+    ("m_lr", "int32_t", ["HexInsnPktBundle *bundle", "int32_t x"], "{ return x + HEX_REG_ALIAS_LR; }"),
+    ("m_slot", "void", ["HexInsnPktBundle *bundle", "int32_t x"], "{ if (x) { STORE_SLOT_CANCELLED(pkt, slot); } }"),
+    ("m_imm", "int32_t", ["HexInsnPktBundle *bundle", "int32_t x"], "{ return x + siV; }"),
+    ("m_reg", "int32_t", ["HexInsnPktBundle *bundle", "int32_t x"], "{ return x + RsV; }"),
+    ("m_expl", "int32_t", ["HexInsnPktBundle *bundle", "int32_t x"], "{ R3 = x; return x; }"),
+    ("m_usr", "void", ["HexInsnPktBundle *bundle", "int32_t x"], "{ set_usr_field(bundle, HEX_REG_FIELD_USR_OVF, x); }"),
+    ("m_load", "int32_t", ["HexInsnPktBundle *bundle", "int32_t x"], "{ return mem_load_u8(x); }"),
+    ("m_jump", "void", ["HexInsnPktBundle *bundle", "int32_t x"], "{ JUMP(x); }"),
+]
+
+
+def _routine_texts(fmt):
+    from rzilcompiler.Transformer.Hybrids.SubRoutine import SubRoutineInitType
+
+    comp = drive.get_compiler(fmt)
+    out = {}
+    for n, r, p_, b in META_ROUTINES:
+        try:
+            comp.add_sub_routine(n, r, p_, b)
+            out[n] = ("ok", comp.sub_routines[n].il_init(SubRoutineInitType.DEF))
+        except Exception as e:
+            out[n] = ("exc", type(e).__name__)
+    return out
+
+
+def generated_routine_prologues(ctx):
+    """A registered sub-routine whose body mentions hi / pkt declares them (and only through its bundle parameter)."""
+    from vf import il
+
+    n_ok = 0
+    combos = set()
+    for fmt in ("stmt", "exec"):
+        r = core.fresh_call(_routine_texts, fmt)
+        if r[0] != "ok":
+            raise core.HarnessError("registering generated routines failed: %s" % (r[1:],))
+        for n, v in sorted(r[1].items()):
+            if v[0] != "ok":
+                continue
+            n_ok += 1
+            text = v[1]
+            header, body = text.split("{", 1)
+            decls = {"hi": "const HexInsn *hi = bundle->insn;", "pkt": "HexPkt *pkt = bundle->pkt;"}
+            used = tuple(il.mentions(body.replace(decls["hi"], "").replace(decls["pkt"], ""), v_) for v_ in ("hi", "pkt"))
+            combos.add(used)
+            for var, decl in decls.items():
+                uses = il.mentions(body.replace(decl, ""), var)
+                if uses and decl not in body:
+                    ctx.report({"routine": n, "layout": fmt, "why": "%s used but not declared" % var, "text_head": text[:400]}, None, what="generated sub-routine %s (%s layout) uses %s without declaring it" % (n, fmt, var))
+                if body.count(decl) > 1:
+                    ctx.report({"routine": n, "layout": fmt, "why": "%s declared twice" % var}, None, what="generated sub-routine %s declares %s twice" % (n, var))
+    return {"generated_routine_prologues_checked": n_ok, "generated_routine_hi_pkt_use_combinations": sorted(combos)}
+
+
 def metadata_checks(ctx):
     """C11 second half: needs_hi / needs_pkt, getter names."""
     from vf import il
@@ -632,6 +689,7 @@ def metadata_checks(ctx):
                 ctx.report({"sub_routine": n, "why": "prologue uses bundle but the routine has no bundle parameter"}, None, what="sub-routine %s: prologue needs bundle" % n)
     out = {"metadata_parts_checked": n_parts, "getter_names_checked": len(allg)}
     out.update(generated_metadata(ctx))
+    out.update(generated_routine_prologues(ctx))
     return out
 
 
